@@ -48,6 +48,9 @@ def cases(tier):
         if i % (8 if q else 1) == 0:
             for ti in range(len(TRANSFORMS)):
                 out.append({"src": "vox", "i": i, "cls": "Polyhedron", "tr": ti})
+    # a solid with a hole (genus 1: V - E + F = 0, so an edge count from Euler's formula is wrong)
+    for ti in range(len(TRANSFORMS)):
+        out.append({"src": "frame", "cls": "Polyhedron", "tr": ti})
     out.append({"src": "dispatch"})
     return out
 
@@ -64,6 +67,10 @@ def build(case):
         base = np.array(FA.prism(case["n"], 0.8), float)
         F = base * s + np.array(t)
         faces = None
+    elif case["src"] == "frame":
+        v = [x for x in A.vox((3, 3, 1)) if len(x["cells"]) == 8 and (1, 1, 0) not in set(map(tuple, x["cells"]))][0]
+        F = np.array(v["verts"], float) * s + np.array(t)
+        faces = [list(f) for f in v["faces"]]
     else:
         v = A.vox((2, 2, 2))[case["i"]]
         F = np.array(v["verts"], float) * s + np.array(t)
@@ -169,6 +176,28 @@ def run_case(case):
                         rep.violation("export", cls, fmt, msg[0], case, "%s (%s): %s" % (fmt, entry, msg[1]))
                     else:
                         rep.ok(fmt)
+            # history: all seven formats saved next to each other under one stem, read back only afterwards (an
+            # export must not overwrite or delete another export's file)
+            texts = {}
+            try:
+                for fmt in FORMATS:
+                    poly.save(fmt, os.path.join(d, "shape." + fmt.lower()))
+                for fmt in FORMATS:
+                    pth = os.path.join(d, "shape." + fmt.lower())
+                    rep.transitions += 1
+                    if not os.path.exists(pth):
+                        rep.violation("export", cls, fmt, "file-removed-by-later-export", case, "shape.%s no longer exists after the other formats were saved under the same stem" % fmt.lower())
+                        continue
+                    with open(pth, "rb") as f:
+                        texts[fmt] = f.read().decode("utf8", "replace")
+                    os.remove(pth)
+                    msg = check_file(fmt, texts[fmt], V, faces, want_cyc, nE, vol)
+                    if msg and msg[0] != "off-header-stray-f":
+                        rep.violation("export", cls, fmt, "same-stem:" + msg[0], case, "%s (saved next to the other formats): %s" % (fmt, msg[1]))
+                    else:
+                        rep.ok("same-stem:" + fmt)
+            except Exception as ex:
+                rep.violation("export", cls, "save", "same-stem-raised:" + type(ex).__name__, case, repr(ex))
             leftovers = os.listdir(d)
             if leftovers:
                 rep.violation("export", cls, "save", "stray-files", case, "export left extra files: %s" % leftovers)
